@@ -24,6 +24,8 @@ import mirror  # noqa: E402
 import desugar  # noqa: E402
 import rlex  # noqa: E402
 
+import threading
+BUILD_LOCK = threading.Lock()
 PROPS = json.load(open(os.path.join(VERIF, 'props.json')))
 ALL_FEATURE_SETS = [tuple(f for f, b in zip(mirror.ALL_FEATURES, bits) if b)
                     for bits in [(1, 1, 1), (0, 1, 1), (1, 0, 1), (1, 1, 0), (0, 0, 1), (0, 1, 0), (1, 0, 0), (0, 0, 0)]]
@@ -103,7 +105,9 @@ def function_spans(text):
             if name is None:
                 name = last_id
             if name is None:
-                name = 'impl_at_line_%d' % line(t[2])
+                # impl for a type that is not a path (`[u8; N]`, `&mut [u8]`): named by the tokens of the header
+                hdr = ''.join(toks[code[x]][1] for x in range(k + 1, min(j, len(code))))
+                name = 'impl_' + re.sub(r'[^A-Za-z0-9]+', '_', hdr).strip('_')
             if j < len(code) and toks[code[j]][1] == '{':
                 ctx.append((pairs[code[j]], t[1], name))
                 k = j + 1
@@ -441,12 +445,14 @@ def decide(pid, cfg, tier, seed, units, work, ev):
     solver_ms = 0
     modules_info = None
     def one(fs):
-        text, linemap, info = mirror.build(fs)
+        with BUILD_LOCK:   # the desugaring catalogue keeps per-text counters: mirrors are built one at a time
+            text, linemap, info = mirror.build(fs)
         sub = os.path.join(work, 'fs_' + ('_'.join(fs) or 'none'))
         os.makedirs(sub)
         mpath = os.path.join(sub, 'mirror.rs')
         open(mpath, 'w').write(text)
-        mods = [m for m in cfg['modules'] if m != 'history' or 'history' in fs]
+        mods = [m for m in cfg['modules'] if (m != 'history' or 'history' in fs)
+                and (m != 'tmpl_autocomplete' or 'autocomplete' in fs)]
         # the prelude does not depend on the feature set (only three spec constants do): verified with the default set
         pre = ['verif_specs'] if fs == mirror.ALL_FEATURES else []
         res = run_verus(mpath, pre + mods, threads=16 if len(feature_sets) == 1 else 6)
